@@ -136,11 +136,17 @@ class AddEnclosingMiddleware(BlockMiddleware):
     def metadata_key(cls) -> str:
         return "remove_enclosing"
 
+    @staticmethod
+    def _is_integer(value) -> bool:
+        if isinstance(value, int):
+            return True
+        return isinstance(value, str) and value.isdigit()
+
     def _enclose(self, value: str, metadata_enclosing: str, apply_int_rule: bool) -> str:
         enclosing = self._default_enclosing
         if self._reuse_previous_enclosing and metadata_enclosing is not None:
             enclosing = metadata_enclosing
-        elif apply_int_rule and not self._enclose_integers and value.isdigit():
+        elif apply_int_rule and not self._enclose_integers and self._is_integer(value):
             return value
 
         if enclosing == "{":
